@@ -404,6 +404,9 @@ impl Gen {
                 }
                 17 => {
                     let ks = self.rng.below(u64::from(p.n_ks)) as u8;
+                    if self.rng.chance(1, 3) {
+                        return Op::DeleteStale { ks };
+                    }
                     return Op::DropHandle { ks };
                 }
                 _ => {}
